@@ -239,9 +239,11 @@ def classify_dtd(s):
         return Cls("invalid", None, "no-component")
     if tpart is not None and h is None and mi is None and se is None:
         return Cls("invalid", None, "T-without-time-component")
-    if dot is not None and not frac:
-        return Cls("invalid", None, "fraction-without-digits")
     undecided = None
+    if dot is not None and not frac:
+        # `PT0.S`: not an XSD lexical form, but the implementation's own unit tests pin it as accepted;
+        # the statement does not settle it
+        undecided = "fraction-without-digits"
     nanos = 0
     if frac:
         if len(frac) > 9 and frac[9:].strip("0"):
@@ -429,3 +431,30 @@ def whole_months_between(a, b):
             ambiguous = True
         months -= 1
     return sign * months, ambiguous
+
+
+# ----------------------------------------------------------------------------------------------
+# panic signatures that do not depend on a captured backtrace
+# ----------------------------------------------------------------------------------------------
+
+
+def panic_site_signature(p):
+    """panic:<source file of the panic site, crate-relative, no line number>:<message class>.
+    The driver's first-dmntk-frame is not always available (the forced backtrace can come back empty
+    under load), the panic location always is."""
+    if not isinstance(p, dict):
+        return "panic:unknown"
+    loc = p.get("loc") or ""
+    path = loc.rsplit(":", 1)[0] if ":" in loc else loc
+    k = path.rfind("/src/")
+    if k >= 0:
+        crate = path[:k].rsplit("/", 1)[-1]
+        crate = re.sub(r"-[0-9][0-9A-Za-z.+-]*$", "", crate)
+        site = crate + path[k:]
+    else:
+        site = path.rsplit("/", 1)[-1] or "?"
+    msg = p.get("msg", "")
+    msg = re.sub(r"'[^']*'", "'_'", msg)
+    msg = re.sub(r'"[^"]*"', '"_"', msg)
+    msg = re.sub(r"[0-9]+", "N", msg)[:80]
+    return "panic:%s:%s" % (site, msg)
